@@ -116,7 +116,9 @@ class HMCOperator(MCMCOperator, ParameterListener):
                     potential_energy = self._hamiltonian.potential_energy()
                 ham = potential_energy + kinetic_energy
             except ValueError:
-                for parameter, saved_tensor in zip(self.parameters, self.saved_tensors):
+                for parameter, saved_tensor in zip(
+                    self._base_parameters(), self.saved_tensors
+                ):
                     parameter.tensor = saved_tensor
                     assert parameter.tensor.requires_grad is False
             else:
